@@ -50,6 +50,9 @@ func NewSignatureVerifier(pk crypto.PublicKey) (*SignatureVerifier, error) {
 	}
 	switch pkType := pk.(type) {
 	case *rsa.PublicKey:
+		if pkType == nil || pkType.N == nil || pkType.E == nil {
+			return nil, errors.New("public key is RSA without a modulus or exponent")
+		}
 		if pkType.N.BitLen() < 2048 {
 			e := fmt.Errorf("public key is RSA with < 2048 bits (size:%d)", pkType.N.BitLen())
 			if !(allowVerificationWithNonCompliantKeys) {
@@ -58,6 +61,9 @@ func NewSignatureVerifier(pk crypto.PublicKey) (*SignatureVerifier, error) {
 			log.Printf("WARNING: %v", e)
 		}
 	case *ecdsa.PublicKey:
+		if pkType == nil || pkType.Curve == nil || pkType.X == nil || pkType.Y == nil {
+			return nil, errors.New("public key is ECDSA without a curve or point")
+		}
 		params := *(pkType.Params())
 		if params != *elliptic.P256().Params() {
 			e := fmt.Errorf("public is ECDSA, but not on the P256 curve")
